@@ -287,10 +287,8 @@ class XPath1Parser(Parser[ta.XPathTokenType]):
     def parse_occurrence(self, token: XPathToken) -> None:
         """Parse the occurrence for the current token."""
         if self.next_token.symbol in ('*', '+', '?'):
-            assert self.token is token
             token.occurrence = self.next_token.symbol
             self.advance()
-            self.next_token.unexpected('*', '+', '?')
 
     def parse_sequence_type(self) -> XPathToken:
         if self.next_token.label in ('kind test', 'sequence type', 'function test'):
@@ -313,7 +311,7 @@ class XPath1Parser(Parser[ta.XPathTokenType]):
                     raise self.next_token.wrong_syntax()
 
         next_symbol = self.next_token.symbol
-        if token.symbol != 'empty-sequence' and next_symbol in ('?', '*', '+'):
+        if token.symbol != 'empty-sequence' and not token.occurrence and next_symbol in ('?', '*', '+'):
             token.occurrence = next_symbol
             self.advance()
         return token
